@@ -55,9 +55,9 @@ func genExt4Cfg(r *core.Rng, tier string, t *core.Trace, wide bool) {
 	if wide {
 		t.Cfg["flexbg"] = int64(r.PickW(15, 85))
 		t.Cfg["b64"] = int64(r.Intn(2))
-		t.Cfg["sparse2"] = int64(r.PickW(85, 15))
+		t.Cfg["sparse2"] = int64(r.PickW(70, 30))
 		t.Cfg["bpg"] = 0
-		if r.Chance(15) { // non-default blocks per group: open known finding, kept to a minority of runs
+		if r.Chance(30) { // non-default blocks per group
 			t.Cfg["bpg"] = core.PickOf[int64](r, 8192, 4096, 2048)
 		}
 		t.Cfg["logflex"] = core.PickOf[int64](r, 0, 0, 0, 1, 2, 3) // groups per flex group = 2^n (0 = default 16)
